@@ -554,7 +554,7 @@ impl Check for CompCheck {
         "C05/components".into()
     }
     fn classes(&self) -> &'static [&'static str] {
-        &["population >= 2", "component changed a solution", "coordinates within a few representable values of a domain bound", "operator fails after writing"]
+        &["population >= 2", "component changed a solution", "coordinates within a few representable values of a domain bound", "partly evaluated population", "operator fails after writing"]
     }
     fn oracle(&self, c: &CompCase) -> Outcome {
         let mut cl = 0;
@@ -702,7 +702,7 @@ fn comp_oracle(c: &CompCase, cl: &mut u64) -> Result<(), Failure> {
                 }
                 35 => ("PopulationEvaluator with an evaluator that repairs solutions in place", mahf::components::evaluation::PopulationEvaluator::<mahf::identifier::Global>::new_with(), vec![mk(1), pop]),
                 34 => {
-                    *cl |= 8;
+                    *cl |= 16;
                     let fail_at = if size == 0 { 0 } else { (c.seed >> 8) as usize % (size + 1) };
                     ("mutation::mutation with a Mutation that fails after writing", Box::new(WriteThenFail { fail_at, calls: Arc::new(Mutex::new(0)) }), vec![mk(2), pop])
                 }
@@ -728,12 +728,21 @@ fn comp_oracle(c: &CompCase, cl: &mut u64) -> Result<(), Failure> {
         }
         22..=25 => {
             let problem = BitsP::new(dim);
+            // one case in three: a partly evaluated population (unevaluated offspring next to evaluated elitists)
+            let partly = (c.seed >> 40) % 3 == 0;
+            if partly {
+                *cl |= 8;
+            }
             let mut mk = |n: usize| -> Vec<Individual<BitsP>> {
                 (0..n)
                     .map(|_| {
                         let sol: Vec<bool> = (0..dim).map(|_| next() < 0.5).collect();
                         let o = problem.f(&sol);
-                        Individual::new(sol, o.try_into().unwrap())
+                        if partly && next() < 0.45 {
+                            Individual::new_unevaluated(sol)
+                        } else {
+                            Individual::new(sol, o.try_into().unwrap())
+                        }
                     })
                     .collect()
             };
@@ -749,6 +758,10 @@ fn comp_oracle(c: &CompCase, cl: &mut u64) -> Result<(), Failure> {
         _ => {
             let n = dim + 1;
             let problem = TspP::generated(n, 0, 5);
+            let partly = (c.seed >> 40) % 3 == 0;
+            if partly && which <= 31 {
+                *cl |= 8;
+            }
             let mut mk = |k: usize| -> Vec<Individual<TspP>> {
                 (0..k)
                     .map(|_| {
@@ -758,7 +771,11 @@ fn comp_oracle(c: &CompCase, cl: &mut u64) -> Result<(), Failure> {
                             sol.swap(i, j.min(i));
                         }
                         let o = problem.f(&sol);
-                        Individual::new(sol, o.try_into().unwrap())
+                        if partly && which <= 31 && next() < 0.45 {
+                            Individual::new_unevaluated(sol)
+                        } else {
+                            Individual::new(sol, o.try_into().unwrap())
+                        }
                     })
                     .collect()
             };
